@@ -1,25 +1,31 @@
 #!/bin/bash
-# For every /verif/seeded/<id> without a recorded suite result: scratch worktree of /repo HEAD, apply patch, run the
-# pinned suite, record the result line in meta.json, remove the worktree.
+# For every /verif/seeded/<id> (or the ids given): scratch worktree of /repo HEAD under /tmp, apply the patch, run the pinned
+# suite serially (the suite has one test that is order-dependent under xdist), run the demo, record the results in meta.json,
+# remove the worktree.  usage: tools/confirm_seeds.sh [--redo] [id ...]      (parallelism: CONFIRM_JOBS, default 3)
 set -u
-for d in /verif/seeded/*/; do
-  id=$(basename $d)
-  if grep -q '"suite_result"' $d/meta.json 2>/dev/null; then continue; fi
+REDO=0; [ "${1:-}" = "--redo" ] && { REDO=1; shift; }
+ids=("$@"); [ ${#ids[@]} -eq 0 ] && ids=($(ls /verif/seeded))
+one() {
+  id=$1; d=/verif/seeded/$id
+  if [ "$REDO" = 0 ] && grep -q '"suite_cmd": "serial' $d/meta.json 2>/dev/null; then return; fi
   wt=/tmp/seedconfirm_$id
-  git -C /repo worktree add --detach $wt HEAD -q || continue
+  git -C /repo worktree add --detach $wt HEAD -q || return
   if git -C $wt apply $d/patch.diff; then
-    res=$(cd $wt && PYTHONPATH=$wt /venv/bin/python -m pytest -q -p no:cacheprovider -n 6 pint/testsuite 2>&1 | tail -1)
-    demo=$(cd /tmp && PYTHONPATH=$wt /venv/bin/python $d/demo.py >/dev/null 2>&1; echo $?)
+    out=$(cd $wt && XDG_CACHE_HOME=$wt/.cache PYTHONPATH=$wt /venv/bin/python -m pytest -q -p no:cacheprovider -p no:xdist --benchmark-disable pint/testsuite 2>&1 | grep -E "^FAILED|^ERROR| passed| failed" | tail -5 | tr '\n' ';')
+    demo=$(cd /tmp && XDG_CACHE_HOME=$wt/.cache PYTHONPATH=$wt /venv/bin/python $d/demo.py >/dev/null 2>&1; echo $?)
+    git -C $wt checkout -- . ; clean=$(cd /tmp && XDG_CACHE_HOME=$wt/.cache PYTHONPATH=$wt /venv/bin/python $d/demo.py >/dev/null 2>&1; echo $?)
   else
-    res="PATCH DOES NOT APPLY"; demo="-"
+    out="PATCH DOES NOT APPLY"; demo="-"; clean="-"
   fi
   git -C /repo worktree remove --force $wt
-  /venv/bin/python - "$d/meta.json" "$res" "$demo" <<'PY'
+  /venv/bin/python - "$d/meta.json" "$out" "$demo" "$clean" <<'PY'
 import json, sys
-p, res, demo = sys.argv[1:4]
-m = json.load(open(p)); m["suite_result"] = res; m["demo_exit_with_change"] = demo
-m["suite_cmd"] = "scratch worktree of /repo HEAD + patch: PYTHONPATH=<wt> /venv/bin/python -m pytest -q -p no:cacheprovider -n 6 pint/testsuite"
+p, res, demo, clean = sys.argv[1:5]
+m = json.load(open(p)); m["suite_result"] = res; m["demo_exit_with_change"] = demo; m["demo_exit_without_change"] = clean
+m["suite_cmd"] = "serial: scratch worktree of /repo HEAD + patch: PYTHONPATH=<wt> /venv/bin/python -m pytest -q -p no:cacheprovider -p no:xdist --benchmark-disable pint/testsuite"
 json.dump(m, open(p, "w"), indent=1, ensure_ascii=False)
 PY
-  echo "$id: $res (demo exit $demo)"
-done
+  echo "$id: $out demo=$demo clean=$clean"
+}
+export -f one; export REDO
+printf '%s\n' "${ids[@]}" | xargs -P ${CONFIRM_JOBS:-3} -I{} bash -c 'one {}'
